@@ -397,7 +397,7 @@ pub fn run(ctx: Ctx) -> ! {
         replay(&ctx, &case);
         ctx.finish("exploration", "replay of one recorded case", false);
     }
-    let (k_main, k_side) = ctx.pick((3, 2), (5, 4));
+    let (k_main, k_side) = ctx.pick((4, 3), (5, 4));
     let families = [
         Family { name: "t./IN", apex_text: "t.", apex_given: "t.", class: c::IN, k: k_main },
         Family { name: "s.T./IN", apex_text: "s.t.", apex_given: "s.T.", class: c::IN, k: k_side },
